@@ -244,10 +244,13 @@ class SInt:
 
     __int__ = __index__
 
+    def __hash__(self):
+        # used as a dict key / set member by code under verification (e.g. a write queue keyed by address): the value is
+        # case-split to a concrete one on the active path (exact), and hashes like that int
+        return hash(self.__index__())
+
     def __bool__(self):
         return bool(self != 0)
-
-    __hash__ = None
 
     def __repr__(self):
         return f"SInt({z3.simplify(self.t)} in [{self.lo},{self.hi}])"
